@@ -72,9 +72,9 @@ Min(a, b) == IF a < b THEN a ELSE b
 
 FL0 == [on |-> FALSE, from |-> 0]
 M0 == [step |-> "", net |-> FALSE,
-       got |-> 0, lastk |-> -2, linkk |-> 0, len |-> 0, lock |-> 0, lform |-> "",
+       got |-> 0, lastk |-> -2, linkk |-> 0, len |-> 0, lock |-> 0, lform |-> "", lhost |-> "same",
        fcl |-> 0, fblen |-> 0, fbcont |-> "", fbend |-> "", errpath |-> FALSE]
-W0 == [open |-> FALSE, lock |-> 0, lform |-> "", chunk |-> 0, flushed |-> 0, size |-> 0, csize |-> 0,
+W0 == [open |-> FALSE, lock |-> 0, lform |-> "", lhost |-> "same", chunk |-> 0, flushed |-> 0, size |-> 0, csize |-> 0,
        nilchunk |-> FALSE, closed |-> FALSE, cerr |-> FALSE]
 RD0 == [open |-> FALSE, verify |-> FALSE, alg |-> "", cont |-> "", size |-> 0, blen |-> 0, bcont |-> "", bend |-> ""]
 \* outcome constraint: ok; nlo <= n <= nhi; when ok also the descriptor (alg, cont, size)
@@ -83,6 +83,12 @@ OErr == O(FALSE, 0, 0, "", "", 0)
 OOk == O(TRUE, 0, 0, "", "", 0)
 C0 == [name |-> "", ref |-> "", o0 |-> 0, o1 |-> 0, take |-> 0, start |-> FALSE, wlen |-> 0, hint |-> 0,
        off |-> 0, idform |-> "", dg |-> "", csize |-> 0, mt |-> TRUE]
+
+\* body classes a listing decodes: "list" has r.items entries; the others are valid JSON documents
+\* (objects or null) without the listing's key, which decode to no entries
+ZeroBodies == {"wszero", "errjson", "wsjson", "huge"}
+Decodable(r) == r.body = "list" \/ r.body \in ZeroBodies
+ItemsOf(r) == IF r.body = "list" THEN r.items ELSE 0
 
 UsableLoc == {"path", "pathq", "pathfq", "url", "rel", "dup"}
 MissingLoc == {"none", "empty"}
@@ -119,8 +125,11 @@ RSEnd(e) == Max(e - 1, 0)
 Q0 == [ms |-> {}, p |-> "", ref |-> "", li |-> 0, host |-> "same", xq |-> FALSE, dq |-> "none", mq |-> FALSE,
        n |-> -2, last |-> -2, rk |-> "none", r0 |-> 0, r1 |-> 0, crp |-> FALSE, cr0 |-> 0, cr1 |-> 0, clen |-> 0]
 
-LocReq(method, k, form, dq) ==
-  [Q0 EXCEPT !.ms = {method}, !.p = "loc", !.li = k, !.host = IF form = "url" THEN "other" ELSE "same",
+\* A location is resolved against the URL of the request whose response carried it: only the
+\* "url" form names a host (another one) itself.
+HostOf(form, qhost) == IF form = "url" THEN "other" ELSE qhost
+LocReq(method, k, form, host, dq) ==
+  [Q0 EXCEPT !.ms = {method}, !.p = "loc", !.li = k, !.host = host,
              !.xq = (form = "pathq"), !.dq = dq]
 
 Want ==
@@ -140,14 +149,14 @@ Want ==
     [] m.step = "referrers" -> [Q0 EXCEPT !.ms = {"GET"}, !.p = "referrers", !.ref = "digest"]
     [] m.step \in {"post1", "start"} -> [Q0 EXCEPT !.ms = {"POST"}, !.p = "uploads"]
     [] m.step = "put1" ->
-         [LocReq("PUT", m.lock, m.lform, "want") EXCEPT !.crp = TRUE, !.cr0 = 0, !.cr1 = RSEnd(c.csize), !.clen = c.csize]
+         [LocReq("PUT", m.lock, m.lform, m.lhost, "want") EXCEPT !.crp = TRUE, !.cr0 = 0, !.cr1 = RSEnd(c.csize), !.clen = c.csize]
     [] m.step = "patch" ->
-         [LocReq("PATCH", w.lock, w.lform, "none") EXCEPT !.crp = TRUE, !.cr0 = w.flushed, !.cr1 = RSEnd(w.flushed + m.len), !.clen = m.len]
+         [LocReq("PATCH", w.lock, w.lform, w.lhost, "none") EXCEPT !.crp = TRUE, !.cr0 = w.flushed, !.cr1 = RSEnd(w.flushed + m.len), !.clen = m.len]
     [] m.step = "commit" ->
-         [LocReq("PUT", w.lock, w.lform, "want") EXCEPT !.crp = TRUE, !.cr0 = w.flushed, !.cr1 = RSEnd(w.flushed + m.len), !.clen = m.len]
-    [] m.step = "status" -> LocReq("GET", 0, "path", "none")
+         [LocReq("PUT", w.lock, w.lform, w.lhost, "want") EXCEPT !.crp = TRUE, !.cr0 = w.flushed, !.cr1 = RSEnd(w.flushed + m.len), !.clen = m.len]
+    [] m.step = "status" -> LocReq("GET", 0, "path", "same", "none")
     [] m.step = "page" ->
-         IF m.linkk # 0 THEN LocReq("GET", m.linkk, "path", "none")
+         IF m.linkk # 0 THEN LocReq("GET", m.linkk, "path", m.lhost, "none")
          ELSE [Q0 EXCEPT !.ms = {"GET"}, !.p = IF c.name = "Repositories" THEN "catalog" ELSE "tags",
                          !.n = IF N >= 0 THEN N ELSE -2, !.last = m.lastk]
     [] OTHER -> Q0
@@ -160,15 +169,15 @@ ReqOK(q) ==
   IF fl.on
   THEN /\ q.m \in (Want.ms \cup {"GET"})
        /\ q.p = "loc" /\ q.li = fl.from
-  ELSE LET x == Want IN
+  ELSE LET x == Want
+           open == \/ m.step = "put1" /\ m.lform = "rand"
+                   \/ m.step \in {"patch", "commit"} /\ w.lform = "rand"
+                   \/ m.step = "page" /\ m.linkk = -1
+       IN
        /\ q.m \in x.ms
-       /\ IF \/ m.step = "put1" /\ m.lform = "rand"
-             \/ m.step \in {"patch", "commit"} /\ w.lform = "rand"
-             \/ m.step = "page" /\ m.linkk = -1
-          THEN TRUE
-          ELSE /\ q.p = x.p /\ q.li = x.li /\ q.host = x.host /\ q.xq = x.xq
-       /\ q.ref = x.ref /\ q.dq = x.dq /\ q.mq = x.mq
-       /\ q.n = x.n /\ q.last = x.last
+       /\ open \/ /\ q.p = x.p /\ q.li = x.li /\ q.host = x.host /\ q.xq = x.xq
+                   /\ q.ref = x.ref /\ q.dq = x.dq /\ q.mq = x.mq
+                   /\ q.n = x.n /\ q.last = x.last
        /\ q.rk = x.rk /\ q.r0 = x.r0 /\ q.r1 = x.r1
        /\ q.crp = x.crp /\ q.cr0 = x.cr0 /\ q.cr1 = x.cr1 /\ q.clen = x.clen
 
@@ -216,7 +225,7 @@ WithLocation(r, k, Go(_, _), Fail) ==
 Fail0 == Finish(OErr) /\ UNCHANGED <<w, rd, m>>
 
 (* One decoded page of `items` entries (pager in lister.go) *)
-Page(k, r, items) ==
+Page(k, r, items, qhost) ==
   LET c == call
       have == m.got + items IN
   IF c.take > 0 /\ have >= c.take
@@ -228,13 +237,13 @@ Page(k, r, items) ==
   ELSE IF r.link \in {"none", "empty"}
   THEN /\ m' = [m EXCEPT !.got = have, !.lastk = k, !.linkk = 0] /\ pc' = "req" /\ UNCHANGED out
   ELSE IF r.link = "ok"
-  THEN /\ m' = [m EXCEPT !.got = have, !.linkk = k] /\ pc' = "req" /\ UNCHANGED out
+  THEN /\ m' = [m EXCEPT !.got = have, !.linkk = k, !.lhost = qhost] /\ pc' = "req" /\ UNCHANGED out
   ELSE IF r.link = "rand"                                                 \* arbitrary value: invalid, or some URL
   THEN \/ Finish(O(FALSE, have, have, "", "", 0)) /\ UNCHANGED m
        \/ /\ m' = [m EXCEPT !.got = have, !.linkk = -1] /\ pc' = "req" /\ UNCHANGED out
   ELSE Finish(O(FALSE, have, have, "", "", 0)) /\ UNCHANGED m             \* invalid Link
 
-HandleOK(k, r) ==
+HandleOK(k, r, qhost) ==
   LET c == call IN
   CASE m.step = "resolve" ->
          LET d == Desc(r, TRUE, TRUE, c.ref = "digest") IN
@@ -268,27 +277,27 @@ HandleOK(k, r) ==
     [] m.step = "referrers" ->
          /\ UNCHANGED <<w, rd, m>>
          /\ IF r.bend # "eof" THEN Finish(OErr)
-            ELSE IF r.body \in {"list", "wszero"}
-            THEN LET n == IF c.take > 0 THEN Min(c.take, r.items) ELSE r.items IN Finish(O(TRUE, n, n, "", "", 0))
+            ELSE IF Decodable(r)
+            THEN LET n == IF c.take > 0 THEN Min(c.take, ItemsOf(r)) ELSE ItemsOf(r) IN Finish(O(TRUE, n, n, "", "", 0))
             ELSE IF r.body = "rand" THEN (Finish(OErr) \/ Finish(OOk))
             ELSE Finish(OErr)
     [] m.step = "post1" ->
-         LET Go(kk, form) == /\ m' = [m EXCEPT !.step = "put1", !.lock = kk, !.lform = form]
+         LET Go(kk, form) == /\ m' = [m EXCEPT !.step = "put1", !.lock = kk, !.lform = form, !.lhost = HostOf(form, qhost)]
                              /\ pc' = "req" /\ UNCHANGED <<w, rd, out>>
          IN WithLocation(r, k, Go, Fail0)
     [] m.step = "put1" -> Finish(O(TRUE, 0, 0, "sha256", KnownCont, c.csize)) /\ UNCHANGED <<w, rd, m>>
     [] m.step = "start" ->
          LET cs == ChunkSize(r, Hint(c.hint))
-             Go(kk, form) == /\ w' = [W0 EXCEPT !.open = TRUE, !.lock = kk, !.lform = form, !.csize = cs]
+             Go(kk, form) == /\ w' = [W0 EXCEPT !.open = TRUE, !.lock = kk, !.lform = form, !.lhost = HostOf(form, qhost), !.csize = cs]
                              /\ Finish(O(TRUE, 0, 0, "", "", cs)) /\ UNCHANGED <<rd, m>>
          IN WithLocation(r, k, Go, Fail0)
     [] m.step = "patch" ->
          LET Go(kk, form) ==
                /\ UNCHANGED <<rd, m>>
                /\ IF c.name = "Write"
-                  THEN /\ w' = [w EXCEPT !.lock = kk, !.lform = form, !.flushed = @ + m.len, !.chunk = 0, !.size = @ + c.wlen]
+                  THEN /\ w' = [w EXCEPT !.lock = kk, !.lform = form, !.lhost = HostOf(form, qhost), !.flushed = @ + m.len, !.chunk = 0, !.size = @ + c.wlen]
                        /\ Finish(O(TRUE, c.wlen, c.wlen, "", "", 0))
-                  ELSE /\ w' = [w EXCEPT !.lock = kk, !.lform = form, !.flushed = @ + m.len, !.chunk = 0, !.closed = TRUE, !.cerr = FALSE]
+                  ELSE /\ w' = [w EXCEPT !.lock = kk, !.lform = form, !.lhost = HostOf(form, qhost), !.flushed = @ + m.len, !.chunk = 0, !.closed = TRUE, !.cerr = FALSE]
                        /\ Finish(OOk)
              Fail == /\ UNCHANGED <<rd, m>> /\ Finish(OErr)
                      /\ w' = IF c.name = "Close" THEN [w EXCEPT !.closed = TRUE, !.cerr = TRUE] ELSE w
@@ -296,7 +305,7 @@ HandleOK(k, r) ==
     [] m.step = "commit" ->
          LET Go(kk, form) ==
                /\ UNCHANGED <<rd, m>>
-               /\ w' = [w EXCEPT !.lock = kk, !.lform = form, !.flushed = @ + m.len, !.chunk = 0]
+               /\ w' = [w EXCEPT !.lock = kk, !.lform = form, !.lhost = HostOf(form, qhost), !.flushed = @ + m.len, !.chunk = 0]
                /\ Finish(O(TRUE, 0, 0, "sha256", KnownCont, w.size))
          IN WithLocation(r, k, Go, Fail0)
     [] m.step = "status" ->
@@ -304,7 +313,7 @@ HandleOK(k, r) ==
              cs == ChunkSize(r, Hint(c.hint))
              Go(kk, form) ==
                IF r.rf # "num" \/ r.ra # 0 THEN Fail0
-               ELSE /\ w' = [W0 EXCEPT !.open = TRUE, !.lock = kk, !.lform = form, !.csize = cs,
+               ELSE /\ w' = [W0 EXCEPT !.open = TRUE, !.lock = kk, !.lform = form, !.lhost = HostOf(form, qhost), !.csize = cs,
                                        !.flushed = p1, !.size = p1, !.nilchunk = TRUE]
                     /\ Finish(O(TRUE, 0, 0, "", "", cs)) /\ UNCHANGED <<rd, m>>
          IN WithLocation(r, k, Go, Fail0)
@@ -312,8 +321,8 @@ HandleOK(k, r) ==
          LET bad == Finish(O(FALSE, m.got, m.got, "", "", 0)) /\ UNCHANGED m IN
          /\ UNCHANGED <<w, rd>>
          /\ IF r.bend # "eof" THEN bad
-            ELSE IF r.body \in {"list", "wszero"} THEN Page(k, r, r.items)
-            ELSE IF r.body = "rand" THEN (bad \/ Page(k, r, 0))      \* arbitrary bytes: not decodable, or no entries
+            ELSE IF Decodable(r) THEN Page(k, r, ItemsOf(r), qhost)
+            ELSE IF r.body = "rand" THEN (bad \/ Page(k, r, 0, qhost))      \* arbitrary bytes: not decodable, or no entries
             ELSE bad
     [] OTHER -> FALSE
 
@@ -343,7 +352,7 @@ Begin(c) ==
             IF c.idform = "empty" THEN Now(OErr) /\ UNCHANGED <<w, rd>>
             ELSE IF c.off = -1 THEN ToReq("status", 0)
             ELSE IF c.off < 0 \/ c.idform \in {"bad", "rel"} THEN Now(OErr) /\ UNCHANGED <<w, rd>>
-            ELSE /\ w' = [W0 EXCEPT !.open = TRUE, !.lock = 0, !.lform = c.idform, !.csize = Hint(c.hint),
+            ELSE /\ w' = [W0 EXCEPT !.open = TRUE, !.lock = 0, !.lform = c.idform, !.lhost = HostOf(c.idform, "same"), !.csize = Hint(c.hint),
                                     !.flushed = c.off, !.size = c.off, !.nilchunk = TRUE]
                  /\ Now(O(TRUE, 0, 0, "", "", Hint(c.hint))) /\ UNCHANGED rd
        [] c.name = "Write" ->
@@ -395,7 +404,7 @@ Exchange(q, r) ==
           \/ \* the response reaches the client's status gate
              /\ fl' = FL0
              /\ IF r.code \in OkCodes(m.step)
-                THEN HandleOK(k, r)
+                THEN HandleOK(k, r, q.host)
                 ELSE \* an error is made of it (of at most ErrLimit+1 bytes of its body)
                      /\ Finish(IF m.step = "page" THEN O(FALSE, m.got, m.got, "", "", 0) ELSE OErr)
                      /\ m' = [m EXCEPT !.errpath = TRUE]
